@@ -80,7 +80,7 @@ class A(Rec):
     family = "A"
 
     def setup(self) -> None:
-        self.add_component("g", type=G, y=1)
+        self.add_component("g", type=G, y=1, opt=None)  # (an option explicitly set to None is still passed to the child)
 
 
 class A2(A):
